@@ -332,7 +332,13 @@ func run(spec *PropSpec, st *interp.Stage, tier string, seed int, only string, w
 	}
 	ev.wall = time.Since(t0).Seconds()
 	ev.inconclusive = inconclusive
-	ev.write(filepath.Join(st.Verif, "evidence", id+".json"))
+	// the committed evidence describes full runs against /repo itself: partial
+	// (-only) runs and runs against a copy write next to it, under a scratch name
+	evPath := filepath.Join(st.Verif, "evidence", id+".json")
+	if only != "" || filepath.Clean(st.Repo) != "/repo" {
+		evPath = filepath.Join(os.TempDir(), "verif-evidence-scratch-"+id+".json")
+	}
+	ev.write(evPath)
 	if exit == 0 && len(inconclusive) > 0 {
 		for i, m := range inconclusive {
 			if i >= 10 {
@@ -382,6 +388,18 @@ func runJob(l *interp.Loaded, j JobSpec, verbose bool) (res *JobResult) {
 	switch j.Mode {
 	case "bmc":
 		r, st, err := interp.RunBMC(l.Prog, l.Sizes, fn, &interp.BMCJob{Harness: j.Harness, Params: j.Params, Solver: j.Solver, Timeout: j.Timeout, K: j.K, Verbose: verbose})
+		// a go statement with more live goroutines than modelled: run again with more
+		// instances (at most 3) instead of giving up
+		for n := 2; n <= 3 && err == nil && r != nil && len(r.Violations) == 0 && hitsSpawnLimit(r.Unsupported); n++ {
+			p := map[string]int{}
+			for k, v := range j.Params {
+				p[k] = v
+			}
+			p["spawn"] = n
+			j.Params = p
+			res.Spec = j
+			r, st, err = interp.RunBMC(l.Prog, l.Sizes, fn, &interp.BMCJob{Harness: j.Harness, Params: j.Params, Solver: j.Solver, Timeout: j.Timeout, K: j.K, Verbose: verbose})
+		}
 		res.BMC, res.Stats, res.Err = r, st, err
 	default:
 		r, st, err := interp.RunSeq(l.Prog, l.Sizes, fn, &interp.SeqJob{Harness: j.Harness, Params: j.Params, Solver: j.Solver, Timeout: j.Timeout})
@@ -395,6 +413,15 @@ func runJob(l *interp.Loaded, j JobSpec, verbose bool) (res *JobResult) {
 		fmt.Fprintf(os.Stderr, "job %s done in %.1fs queries=%d err=%v\n", j.Key(), time.Since(t0).Seconds(), q, res.Err)
 	}
 	return
+}
+
+func hitsSpawnLimit(us []string) bool {
+	for _, u := range us {
+		if strings.Contains(u, "model-limit: spawn") {
+			return true
+		}
+	}
+	return false
 }
 
 func writeCex(dir string, j JobSpec, v *interp.Violation) {
